@@ -39,7 +39,7 @@ def statusTable : Nat → List Nat
   | 7 => [200, 2]
   | _ => []
 
-def mkParams (p d m r q st x : Nat) (dyn : Bool := false) (lat : Nat := 0) : Params :=
+def mkParams (p d m r q st x : Nat) (dyn : Bool := false) (lat : Nat := 0) (act : Nat := 0) : Params :=
   { passive := p == 1,
     failDur := if p == 1 then d else 0,
     maxFails := if m == 0 then 1 else m,     -- reverseproxy.go:359-361
@@ -48,6 +48,10 @@ def mkParams (p d m r q st x : Nat) (dyn : Bool := false) (lat : Nat := 0) : Par
     firstMax := x,                           -- an upstream's own max_requests wins (reverseproxy.go:1218-1223)
     badStatus := if p == 1 then statusTable st else [],
     latency := p == 1 && lat == 1,
+    -- act = 0: no (modelled) active checks; 4..7: enabled with passes = 1 + (act-4)/2, fails = 1 + (act-4)%2
+    aOn := act ≥ 4,
+    aPasses := if act ≥ 4 then 1 + (act - 4) / 2 else 1,
+    aFails := if act ≥ 4 then 1 + (act - 4) % 2 else 1,
     dynamic := dyn }
 
 def outcomeNames : List String := ["ok", "sl", "e5", "c404", "c429", "c502", "c503", "rst", "hup", "pan", "her"]
@@ -71,8 +75,13 @@ def parseStep (s : String) (K : Nat) : Option SStep :=
     | some ks, some p, some d, some m, some r, some q, some st, some x, some l =>
       -- l: 1 = unhealthy_latency, 2 = active health checks in the background (thresholds out of reach:
       -- they change nothing the model sees), 3 = both
+      -- 4..7 = active health checks driven round by round (passes/fails thresholds 1 or 2); their
+      -- upstreams must be distinct addresses (one Host per check)
       if p ≤ 1 && r ≤ 8 && st ≤ 7 && m ≤ 100 && q ≤ 100 && x ≤ 100 && 1 ≤ l && l ≤ 3 then
-        some (.load ks (mkParams p d m r q st x false (if l == 2 then 0 else 1)) []) else none
+        some (.load ks (mkParams p d m r q st x false (if l == 2 then 0 else 1)) [])
+      else if p ≤ 1 && r ≤ 8 && st ≤ 7 && m ≤ 100 && q ≤ 100 && x ≤ 100 && 4 ≤ l && l ≤ 7 && ks.eraseDups.length == ks.length then
+        some (.load ks (mkParams p d m r q st x false 0 l) [])
+      else none
     | _, _, _, _, _, _, _, _, _ => none
   | ["Y", ks, p, d, m, r, q, st] =>
     -- a configuration whose upstreams come from a dynamic source returning `ks`
@@ -86,6 +95,9 @@ def parseStep (s : String) (K : Nat) : Option SStep :=
     | some ks, some p, some d, some m, some r, some q, some st, some fb =>
       if p ≤ 1 && r ≤ 8 && st ≤ 7 && m ≤ 100 && q ≤ 100 then some (.load ks (mkParams p d m r q st 0 true) fb) else none
     | _, _, _, _, _, _, _, _ => none
+  | ["H", k, "1"] => (num k).bind fun k => if k < K then some (.health k true) else none
+  | ["H", k, "0"] => (num k).bind fun k => if k < K then some (.health k false) else none
+  | ["K"] => some .round
   | ["E", "1"] => some (.srcFail true)
   | ["E", "0"] => some (.srcFail false)
   | ["B", ks] => (parseKeys ks K).map .badLoad
@@ -116,6 +128,24 @@ def usesLatency : List SStep → Bool
   | .load _ p _ :: rest => p.latency || usesLatency rest
   | _ :: rest => usesLatency rest
 
+/-- does the schedule load a configuration whose active checks it drives itself? -/
+def usesActive : List SStep → Bool
+  | [] => false
+  | .load _ p _ :: rest => p.aOn || usesActive rest
+  | _ :: rest => usesActive rest
+
+/-- the tenth field of the load steps of a schedule (0 where there is none) -/
+def loadModes (steps : List String) : List Nat :=
+  steps.map fun st =>
+    match st.splitOn ":" with
+    | ["L", _, _, _, _, _, _, _, _, l] => (num l).getD 0
+    | _ => 0
+
+/-- free-running background checks (modes 2, 3) would move the active counters of shared Hosts by
+    an unknown amount: they cannot be mixed with checks the schedule drives (modes 4..7) -/
+def mixesActiveModes (steps : List String) : Bool :=
+  (loadModes steps).any (fun l => l == 2 || l == 3) && (loadModes steps).any (fun l => 4 ≤ l && l ≤ 7)
+
 def totalTicks : List SStep → Nat
   | [] => 0
   | .ticks n :: rest => n + totalTicks rest
@@ -124,14 +154,15 @@ def totalTicks : List SStep → Nat
 def showObjs (s : State) : String :=
   ",".intercalate ((List.range s.nextHost).map fun o => toString (s.inflight o) ++ "/" ++ toString (s.fails o))
 
-def showUp (p : Params) (s : State) (iu : Nat × (Key × HostId)) : String :=
-  toString iu.2.2 ++ (if !healthy p s iu.2.2 then "u" else if full p iu.1 s iu.2.2 then "f" else "a")
+def showUp (c : CfgId) (p : Params) (s : State) (iu : Nat × (Key × HostId)) : String :=
+  toString iu.2.2 ++ (if isDown s c iu.1 || !healthy p s iu.2.2 then "u" else if full p iu.1 s iu.2.2 then "f" else "a") ++
+    (if p.aOn then ":" ++ toString (s.aPass iu.2.2) ++ "/" ++ toString (s.aFail iu.2.2) else "")
 
 def showCur (d : DState) : String :=
   match curLive d with
   | some c =>
     match d.s.cfgs[c]? with
-    | some cs => ",".intercalate ((List.range cs.ups.length).zip cs.ups |>.map (showUp cs.par d.s))
+    | some cs => ",".intercalate ((List.range cs.ups.length).zip cs.ups |>.map (showUp c cs.par d.s))
     | none => ""
   | none => ""
 
@@ -165,6 +196,7 @@ def handleSched (k steps : String) : String :=
     match (steps.splitOn ";").mapM (parseStep · K) with
     | none => "bad-op"
     | some sts =>
+      if mixesActiveModes (steps.splitOn ";") then "bad-op" else
       if totalTicks sts > 99 then "bad-op" else
       if usesLatency sts && totalTicks sts > 0 then "bad-op" else
       match runSched K dinit sts [] with
@@ -185,7 +217,7 @@ def stressOutcome (seed i : Nat) : String :=
   | _ => "abort"
 
 def stressParams : Params :=
-  { passive := true, failDur := 100, maxFails := 100, retries := 0, maxReq := 0, firstMax := 0, badStatus := [500], latency := false, dynamic := false }
+  { passive := true, failDur := 100, maxFails := 100, retries := 0, maxReq := 0, firstMax := 0, badStatus := [500], latency := false, aOn := false, aPasses := 1, aFails := 1, dynamic := false }
 
 /-- one request from entry to return, on Host object `i % 2`; returns the new state and how the
     handler returned -/
